@@ -6,7 +6,7 @@ import numpy as np
 from . import common, cons, hand, hist, place, universe, xt
 
 PID = "C03"
-FORMS = ["py", "nd", "ndF", "ndS", "cap", "xobj-other", "xobj-ctx", "xobj-nested", "xobj-slack", "ref-same", "ref-foreign", "xobj-view", "xobj-nested-view", "xobj-capslack", "xobj-twin"] + cons.LEN
+FORMS = ["py", "py-args", "nd", "ndF", "ndS", "cap", "xobj-other", "xobj-ctx", "xobj-nested", "xobj-slack", "ref-same", "ref-foreign", "xobj-view", "xobj-nested-view", "xobj-capslack", "xobj-twin"] + cons.LEN
 PL = ["dirtyhole", "dirtyhole2", "hole", "explicit", "explicit-i8", "ba-hole", "grown", "al64"]
 
 
